@@ -20,7 +20,8 @@ FP = os.path.join(common.VERIF, "contracts", "kernel_fingerprints.json")
 def list_units():
     return {"kernels": {"props": ["C04"], "tier": "quick", "doc": __doc__},
             "rust_statics": {"props": ["C18"], "tier": "quick", "doc": run_rust_statics.__doc__},
-            "c_cache_single_store": {"props": ["C18"], "tier": "quick", "doc": run_c_cache_single_store.__doc__}}
+            "c_cache_single_store": {"props": ["C18"], "tier": "quick", "doc": run_c_cache_single_store.__doc__},
+            "c_pointer_casts": {"props": ["C07"], "tier": "quick", "doc": run_c_pointer_casts.__doc__}}
 
 
 def _sha(path):
@@ -151,7 +152,115 @@ def run_c_cache_single_store():
     return res
 
 
+BYTE_TYPES = {"void", "char", "unsigned char", "signed char", "uint8_t", "int8_t"}
+C_CAST_FILES = ["blake3.c", "blake3_dispatch.c", "blake3_portable.c", "blake3_impl.h", "blake3_sse2.c", "blake3_sse41.c",
+                "blake3_avx2.c", "blake3_avx512.c", "blake3_neon.c"]
+# a cast to a wider pointee is harmless as the direct argument of an unaligned load/store intrinsic (or cpuid's int[4])
+ALLOWED_CAST_CALLEE = r"(?:_mm\d*_(?:mask_|maskz_)?(?:loadu|storeu|i32gather|i64gather)\w*|__cpuid(?:ex)?|vld1q?_\w+|vst1q?_\w+|_mm_prefetch)$"
+
+
+def c_pointer_casts(src):
+    """-> [(line, text, pointee, allowed)] for every cast expression to a pointer type in comment-free C text"""
+    import re
+    src = re.sub(r"/\*.*?\*/", lambda m: re.sub(r"[^\n]", " ", m.group(0)), src, flags=re.S)
+    src = re.sub(r"//[^\n]*", lambda m: " " * len(m.group(0)), src)
+    out = []
+    rx = re.compile(r"\(\s*((?:const\s+|volatile\s+|unsigned\s+|signed\s+|struct\s+)*[A-Za-z_]\w*)\s*((?:const\s*|volatile\s*)?\*[\s*const]*)\)\s*(?=[A-Za-z_(&*])")
+    for m in rx.finditer(src):
+        base = re.sub(r"\b(const|volatile)\b", "", m.group(1)).strip()
+        base = re.sub(r"\s+", " ", base)
+        # `sizeof (T *)` and parameter lists `f(const T *)` are not casts: a cast is followed by an operand, and is not
+        # itself preceded by an identifier (call / declaration) -- keywords return/sizeof aside
+        before = src[:m.start()].rstrip()
+        prev = re.search(r"([A-Za-z_]\w*)$", before)
+        if prev and prev.group(1) not in ("return", "case", "else"):
+            continue
+        if base in ("return", "sizeof"):
+            continue
+        ptr_depth = m.group(2).count("*")
+        pointee_is_byte = (base in BYTE_TYPES and ptr_depth == 1)
+        if pointee_is_byte:
+            continue
+        # the innermost enclosing call
+        depth, i, callee = 0, m.start() - 1, None
+        while i >= 0:
+            ch = src[i]
+            if ch == ")":
+                depth += 1
+            elif ch == "(":
+                if depth == 0:
+                    mm = re.search(r"([A-Za-z_]\w*)\s*$", src[:i])
+                    callee = mm.group(1) if mm else ""
+                    break
+                depth -= 1
+            elif ch in ";{}":
+                break
+            i -= 1
+        allowed = bool(callee and re.match(ALLOWED_CAST_CALLEE, callee))
+        line = src.count("\n", 0, m.start()) + 1
+        text = src[src.rfind("\n", 0, m.start()) + 1: src.find("\n", m.start())].strip()
+        out.append((line, text, base + " " + "*" * ptr_depth, allowed))
+    return out
+
+
+def _c_enclosing_function(src, line):
+    import re
+    best = None
+    for m in re.finditer(r"^[A-Za-z_][^\n;{}()]*?\b([A-Za-z_]\w*)\s*\([^;{}]*?\)\s*\{", src, flags=re.M | re.S):
+        if src.count("\n", 0, m.end()) + 1 <= line + 0 and m.group(1) not in ("if", "while", "for", "switch"):
+            best = m.group(1)
+    return best
+
+
+def run_c_pointer_casts():
+    """Alignment / effective-type half of C07's "no undefined behaviour" that CBMC's memory model does not have
+    (objects are byte arrays without alignment): the C sources never reinterpret a pointer as a pointer to a WIDER
+    object type, except as the direct operand of an unaligned load/store intrinsic (or cpuid's int[4]); all word
+    access to caller bytes goes through load32/store32/memcpy. One obligation per C source file, exhaustive over its
+    cast expressions. A cast outside the discipline is not by itself UB (the pointer may be aligned), so it makes the
+    unit undecided with a suspect obligation: the directed search on the real C library under UBSan/ASan with
+    misaligned, guard-page-flush buffers (lib/search_c.py) decides it with a concrete failing input or not at all."""
+    res = new_result("guard:c_pointer_casts", "guard", level="proof")
+    res["cmd"] = "scan of the cast expressions of c/{%s}" % ",".join(C_CAST_FILES)
+    res["trusted_base"] = ["textual scan of cast expressions (macro-generated casts are seen only at the macro definition)"]
+    bad = []
+    for f in C_CAST_FILES:
+        path = os.path.join(common.REPO, "c", f)
+        if not os.path.exists(path):
+            continue
+        src = open(path, encoding="utf-8", errors="replace").read()
+        casts = c_pointer_casts(src)
+        res["obligations"] += 1
+        wrong = [c for c in casts if not c[3]]
+        if not wrong:
+            res["discharged"] += 1
+        for line, text, ty, _ in wrong:
+            bad.append((f, line, text, ty, _c_enclosing_function(src, line)))
+        res["functions_verified"].append("c/%s: %d pointer casts to non-byte pointees, all operands of unaligned load/store intrinsics"
+                                         % (f, len(casts)))
+        if casts and len(res["samples"]) < 4:
+            res["samples"].append({"file": "c/" + f, "cast": casts[0][1], "line": casts[0][0]})
+    if not bad:
+        res["status"] = "pass"
+        return res
+    res["undecided_reason"] = "pointer cast(s) to a wider pointee outside the unaligned-access discipline: " + \
+        "; ".join("c/%s:%d `%s`" % (b[0], b[1], b[2][:80]) for b in bad[:4]) + \
+        " -- not UB by itself; decided only by a failing input on the real C library"
+    for f, line, text, ty, fn in bad[:3]:
+        fo = failed_obligation(fn or ("c/" + f), "other",
+                               "cast to `%s` outside an unaligned load/store intrinsic: `%s`" % (ty, text[:120]),
+                               location="c/%s:%d" % (f, line),
+                               clause="no pointer is reinterpreted as a pointer to a wider object type (alignment, effective type)")
+        fo["search"] = "c_api"
+        fo["variants"] = ["portable", "intrinsics", "asm"] if f in ("blake3.c", "blake3_portable.c", "blake3_impl.h", "blake3_dispatch.c") \
+            else ["intrinsics", "portable", "asm"]
+        res.setdefault("suspect", []).append(fo)
+    return res
+
+
 def run_unit(name, tier="quick"):
+    if name == "c_pointer_casts":
+        return run_c_pointer_casts()
     if name == "rust_statics":
         return run_rust_statics()
     if name == "c_cache_single_store":
